@@ -282,3 +282,5 @@ def check(ctx):
     from . import c02, c13
     c02.check_manifest(ctx)    # a kill between the CURRENT switch and the MANIFEST record must leave an openable database
     c13.check_gc(ctx)          # a log the MANIFEST still needs for replay is never collected
+    c02.check_tables(ctx)      # a flush whose table was not written, synced and closed never retires its log
+    c02.check_env(ctx)         # an acknowledged record reached write(2) completely (short writes are continued)
